@@ -72,7 +72,7 @@ Inductive case :=
                 (judged : bool) (probes : list aprobe)
   (* shared negative-cache state through Cache.ServeDNS: zone, maximum TTL, history of client
      exchanges (with what the downstream resolver answered) and clock advances *)
-| CaseShared (z : rzone) (maxttl : Z) (lim_index lim_cuts : N) (ops : list shop)
+| CaseShared (z : rzone) (maxttl : Z) (lim_index lim_cuts : N) (tab : list (name * N)) (ops : list shop)
   (* subtree-cut cache: configured maximum TTL (s), history of record / clock advance / lookup *)
 | CaseCut (maxttl : Z) (ops : list cutop)
   (* zone the records were drawn from; signer handed to the code; records; positions kept by
@@ -221,39 +221,43 @@ Definition optZ_eqb (a b : option Z) : bool :=
   match a, b with None, None => true | Some x, Some y => (x =? y)%Z | _, _ => false end.
 Definition shobs_eqb (a b : shobs) : bool :=
   optZ_eqb (so_soa a) (so_soa b) && (so_nrec a =? so_nrec b) && (so_sum a =? so_sum b)%Z &&
-  (so_ncut a =? so_ncut b) && (so_nlive a =? so_nlive b).
+  (so_ncut a =? so_ncut b) && (so_nlive a =? so_nlive b) && Bool.eqb (so_tomb a) (so_tomb b).
 (* after every exchange: what the client saw AND the shared state left behind agree with the model *)
-Fixpoint check_shared (lim : limits) (maxttl : Z) (zone : rname) (st : shared) (now : Z) (ops : list shop) : bool :=
+Fixpoint check_shared (lim : limits) (maxttl : Z) (tab : htab) (zone : rname) (st : shared) (now : Z) (ops : list shop) : bool :=
   match ops with
   | [] => true
-  | ShAdvance s :: t => check_shared lim maxttl zone st (now + s)%Z t
-  | ShExchange q qtype cd ecs ds synth obs :: t =>
-      let '(st', r) := exchange lim maxttl st now zone (canon q) qtype cd ecs ds in
-      optN_eqb r synth && shobs_eqb (observe_shared now st') obs && check_shared lim maxttl zone st' now t
+  | ShAdvance s :: t => check_shared lim maxttl tab zone st (now + s)%Z t
+  | ShExchange q qtype cd ecs ds _ synth obs :: t =>
+      let '(st', r) := exchange lim maxttl tab st now zone (canon q) qtype cd ecs ds in
+      optN_eqb r synth && shobs_eqb (observe_shared now st') obs && check_shared lim maxttl tab zone st' now t
   end.
 (* the specification on the history alone: a synthesized denial is a true statement about the zone,
    is never given to a CD=1 or ECS request, and needs an earlier exchange that passed the admission
    guard *)
-Fixpoint spec_shared (z : zone) (admitted : bool) (ops : list shop) : bool :=
+Fixpoint spec_shared (z : zone) (admitted dirty : bool) (ops : list shop) : bool :=
   match ops with
   | [] => true
-  | ShAdvance _ :: t => spec_shared z admitted t
-  | ShExchange q qtype cd ecs ds synth _ :: t =>
+  | ShAdvance _ :: t => spec_shared z admitted dirty t
+  | ShExchange q qtype cd ecs ds honest synth _ :: t =>
       let qe := canon q in
       match synth with
       | None => true
       | Some rc => negb cd && negb ecs && admitted &&
-                   (if rc =? 3 then negb (exists_in_b z qe) else nodata_true_b z qe qtype)
+                   (dirty || (if rc =? 3 then negb (exists_in_b z qe) else nodata_true_b z qe qtype))
       end &&
-      spec_shared z (admitted || match ds, synth with
-                                 | DsNegative _ _ _ marked aggressive res_cd, None => admission_guard cd ecs marked aggressive res_cd
-                                 | _, _ => false end) t
+      let passes := match ds, synth with
+                    | DsNegative _ _ _ marked aggressive res_cd, None
+                    | DsNegative3 _ _ _ marked aggressive res_cd, None => admission_guard cd ecs marked aggressive res_cd
+                    | _, _ => false end in
+      (* once records of a changed zone were admitted, truth is no longer judged against this zone *)
+      spec_shared z (admitted || passes) (dirty || (passes && negb honest)) t
   end.
 
 Definition check_case (c : case) : bool :=
   match c with
-  | CaseShared z maxttl li lc ops =>
-      check_shared (mk_limits (N.to_nat li) (N.to_nat lc)) maxttl (canon (rz_apex z)) shared_empty 0 ops
+  | CaseShared z maxttl li lc tab ops =>
+      check_shared (mk_limits (N.to_nat li) (N.to_nat lc)) maxttl (map (fun p => (canon (fst p), snd p)) tab)
+                   (canon (rz_apex z)) shared_empty 0 ops
   | CaseAuthNsec z signer recs kept probes =>
       let cs := canon_recs recs in
       let sg := canon signer in
@@ -319,9 +323,9 @@ Definition spec_probe3 (z : zone) (exact_ok aggr_ok : bool) (p : probe3) : bool 
 
 Definition spec_case (c : case) : bool :=
   match c with
-  | CaseShared rz maxttl _ _ ops =>
+  | CaseShared rz maxttl _ _ _ ops =>
       let z := canon_zone rz in
-      if negb (zone_wf_b z) then true else spec_shared z false ops
+      if negb (zone_wf_b z) then true else spec_shared z false false ops
   | CaseAuthNsec rz signer recs kept probes =>
       let z := canon_zone rz in
       let cs := canon_recs recs in
